@@ -8,6 +8,7 @@ CONSTANTS
   BatchSet = {1, 2}
   PathSet = {"async", "sync"}
   MaxPauses = 2
+  MaxRestarts = 1
   Kinds = {"waive", "stale", "equal", "future", "far", "neg", "negbig"}
   Pols = {"leader", "none"}
   Mut = "none"
